@@ -52,6 +52,10 @@ def domains(quick):
              [False], ['dev'], ['reversed', 'rotated']),
             ('shared', e1, [(0, 0), (1, 1)], [[], ['h1']], [True],
              [False, True], [False, True], ['dev', 'prod'], ['identity']),
+            # every environment the code knows: prod and uat draw from the
+            # PROD range, dev and qa from the non-prod range
+            ('environments', e1, [(1, 1)], [[]], [False], [False], [False],
+             ['dev', 'qa', 'uat', 'prod'], list(W.PORT_ORDERS)),
         ]
     return [
         ('private', e2, EPH_ALL, PASS_ALL, [False, True], [False], [False],
